@@ -140,18 +140,38 @@ def location_of(model, fi, expr, locals_, globs):
 
 
 def _instance_assigned(cls, attr):
+    """`self.<attr>` is rebound unconditionally by an __init__ of the class (a statement directly in its
+    body): from then on the attribute denotes per-instance state. A conditional rebinding does not count -
+    on the other path the class-level object is still the one that is mutated."""
     for c in cls.mro():
         if not isinstance(c, ClassInfo):
             continue
-        for m in c.methods.values():
-            if not m.params():
-                continue
-            s = m.params()[0]
-            for n in walk_function(m.node):
-                if isinstance(n, ast.Attribute) and isinstance(n.ctx, ast.Store) and n.attr == attr \
-                        and isinstance(n.value, ast.Name) and n.value.id == s and m.kind == 'method':
-                    return True
+        m = c.methods.get('__init__')
+        if m is None or not m.params() or m.kind != 'method':
+            continue
+        s = m.params()[0]
+        for st in m.node.body:
+            tgts = st.targets if isinstance(st, ast.Assign) else [st.target] if isinstance(st, (ast.AnnAssign, ast.AugAssign)) else []
+            for t in tgts:
+                for n in _flatten(t):
+                    if isinstance(n, ast.Attribute) and n.attr == attr and isinstance(n.value, ast.Name) and n.value.id == s:
+                        return True
     return False
+
+
+def vanished(model, rep, l):
+    """A classified location that nothing writes any more. If its name no longer occurs anywhere in the
+    package the state is gone and its discipline is vacuous (noted in the evidence); if the name is still
+    used the inventory has lost track of the writes and the run is analysis-broken."""
+    name = l.split(':', 1)[1].split('.')
+    name = name[-2] if l.startswith('class:') and len(name) >= 2 and name[-2][:1].islower() else name[-1]
+    for u in model.units.values():
+        for n in ast.walk(u.tree):
+            if (isinstance(n, ast.Name) and n.id == name) or (isinstance(n, ast.Attribute) and n.attr == name) \
+                    or (isinstance(n, ast.Constant) and n.value == name):
+                raise AnalysisError('classified state %s is no longer written anywhere although %r is still used in %s '
+                                    '(inventory out of date)' % (l, name, u.modname))
+    rep.extra.setdefault('vanished_state', []).append(l)
 
 
 def loc_name(l):
@@ -318,7 +338,8 @@ def rule_override(ctx, rep, by_loc):
             continue
         ws = by_loc.get(l, [])
         if not ws:
-            raise AnalysisError('classified state %s is no longer written anywhere (table out of date)' % l)
+            vanished(model, rep, l)
+            continue
         by_fn = {}
         for w in ws:
             by_fn.setdefault(w.fi.qualname, []).append(w)
@@ -355,7 +376,8 @@ def rule_entry_rewrite(ctx, rep, by_loc):
             continue
         ws = by_loc.get(l, [])
         if not ws:
-            raise AnalysisError('classified state %s is no longer written anywhere' % l)
+            vanished(model, rep, l)
+            continue
         modname, attr = l[len('module:'):].rsplit('.', 1)
         # readers: functions loading <module>.<attr>
         readers = set()
@@ -397,10 +419,14 @@ def rule_entry_rewrite(ctx, rep, by_loc):
         rep.extra.setdefault('entry_rewrite_readers', {})[l] = sorted(x[len(PKG) + 1:] for x in readers)
 
 
-def rule_handoff(ctx, rep, by_loc):
+def rule_handoff(ctx, rep, by_loc=None, rule='D-HANDOFF'):
     model = ctx.model
     cg = ctx.callgraph()
-    rep.rule('D-HANDOFF', 'hand-off buffer is emptied before it is filled, on every path that starts a new inline tokenization')
+    if by_loc is None:
+        by_loc = {}
+        for w in inventory(model):
+            by_loc.setdefault(w.location, []).append(w)
+    rep.rule(rule, 'hand-off buffer is emptied before it is filled, on every path that starts a new inline tokenization')
     for l, (disc, _) in CLASSIFICATION.items():
         if disc != 'D-HANDOFF':
             continue
@@ -410,13 +436,14 @@ def rule_handoff(ctx, rep, by_loc):
             raise AnalysisError('hand-off buffer %s has no producer (table out of date)' % l)
         attr = l.rsplit('.', 1)[1]
         for q, fi in sorted(producers.items()):
-            rep.instance('D-HANDOFF')
+            rep.instance(rule)
             ok, why = _reset_dominates(model, cg, fi, l, attr, ws, depth=0)
-            rep.obligation('D-HANDOFF', ok, {'buffer': l, 'producer': fi.short, 'why': why})
+            rep.obligation(rule, ok, {'buffer': l, 'producer': fi.short, 'why': why})
             if not ok:
-                rep.find('D-HANDOFF', fi.short, l,
+                rep.find(rule, fi.short, l,
                          '%s appends to %s without the buffer being emptied first on every path (%s): a producer that '
-                         'raised before the consumer ran leaves matches that are attributed to the next document'
+                         'raised before the consumer ran, or a scan that returns before emptying it, leaves matches that are attributed '
+                         'to the next inline content (the next block or the next document)'
                          % (fi.short, l, why), loc(model.unit_of(fi), fi.node))
 
 
@@ -592,13 +619,13 @@ def rule_registry(ctx, rep, as_rule=None, by_loc=None):
         it = Interp(model)
         it.reset_run(Oracle())
         cfgmod.init_state(model, it)
-        b0 = list(it.gstate[(PKG + '.block_token', '_token_types')])
-        s0 = list(it.gstate[(PKG + '.span_token', '_token_types')])
+        b0 = list(it.global_value(PKG + '.block_token', '_token_types'))
+        s0 = list(it.global_value(PKG + '.span_token', '_token_types'))
         try:
             obj = it.construct(cfg.cls, [], {})
             it.call(it.getattr(obj, '__exit__'), [None, None, None], {})
-            b1 = list(it.gstate[(PKG + '.block_token', '_token_types')])
-            s1 = list(it.gstate[(PKG + '.span_token', '_token_types')])
+            b1 = list(it.global_value(PKG + '.block_token', '_token_types'))
+            s1 = list(it.global_value(PKG + '.span_token', '_token_types'))
             ok = b0 == b1 and s0 == s1
             detail = {'block': [c.name for c in b1], 'span': [c.name for c in s1]}
         except Raised as r:
@@ -627,7 +654,8 @@ def rule_reinit(ctx, rep, by_loc):
         ws = by_loc.get(l, [])
         rep.instance('D-REINIT')
         if not ws:
-            raise AnalysisError('classified state %s is no longer written anywhere' % l)
+            vanished(model, rep, l)
+            continue
         for w in ws:
             ok = w.fi.name == '__init__' and stmt_of(w.node) in w.fi.node.body
             rep.obligation('D-REINIT', ok, {'location': l, 'writer': w.fi.short})
